@@ -23,3 +23,17 @@ def gen_agg(items):
             raise Fail(f'{t}: segment_size.max(size) guard not found')
         return D('AGG_TERMS_SEGMENT_SIZE_AT_LEAST_SIZE', 1, 'segment_size = segment_size.max(size)')
     items.append(seg_max)
+    h = 'src/aggregation/bucket/histogram/histogram.rs'
+    def hist_norm_first():
+        # statement order in normalize_histogram_req: a plain `histogram` on a date column is converted
+        # from ms to ns (normalize_date_time) BEFORE the collect-time bounds and the offset are read
+        body = fn_body(h, 'normalize_histogram_req')
+        i = body.find('normalize_date_time()')
+        j = body.find('req_data.bounds =')
+        k = body.find('req_data.offset =')
+        if i < 0 or j < 0 or k < 0:
+            raise Fail(f'{h}: normalize_histogram_req: normalize_date_time / req_data.bounds / req_data.offset not found')
+        if not (i < j and i < k):
+            raise Fail(f'{h}: normalize_histogram_req reads hard_bounds / offset BEFORE normalize_date_time (ms bounds against ns values)')
+        return D('AGG_HIST_NORMALIZE_BEFORE_BOUNDS', 1, f'{h}::normalize_histogram_req: normalize_date_time precedes req_data.bounds / req_data.offset')
+    items.append(hist_norm_first)
